@@ -390,6 +390,7 @@ func (fv *FnV) doInstr(st *State, ins ssa.Instruction) error {
 				}
 			}
 			for _, cl := range cls {
+				fv.hitAtCall(cl)
 				env := fv.contractEnv(st, fv.entry, nil)
 				if li := fv.innermostLoop(); li != nil {
 					env.loop = li
@@ -959,6 +960,9 @@ func (fv *FnV) loopHead(li *loopInfo, st *State) error {
 		if cl := fv.k.RangeOver[li.ordinal]; cl != nil {
 			fv.rangeForm(li, cl)
 		}
+		if cl := fv.k.Exhaustive[li.ordinal]; cl != nil {
+			fv.exhaustiveForm(li, cl)
+		}
 	}
 	li.entrySt = st.clone()
 	// 2. havoc
@@ -1259,4 +1263,44 @@ func blockReaches(from, to *ssa.BasicBlock) bool {
 		stack = append(stack, b.Succs...)
 	}
 	return false
+}
+
+// exhaustiveForm: the loop is left only through its header (the range is exhausted) or by returning from the function;
+// no `break`, `goto` or labelled `continue` of an outer loop carries control to the code after the loop early.
+func (fv *FnV) exhaustiveForm(li *loopInfo, cl *Clause) {
+	var done *ssa.BasicBlock
+	for _, s := range li.header.Succs {
+		if !li.body[s] && s != li.header {
+			done = s
+		}
+	}
+	why := ""
+	for b := range li.body {
+		if b == li.header {
+			continue
+		}
+		for _, t := range b.Succs {
+			if li.body[t] || t == li.header {
+				continue
+			}
+			if t == done {
+				why = "block " + b.String() + " (" + fv.posString(b.Instrs[len(b.Instrs)-1].Pos()) + ") jumps to the code after the loop"
+				continue
+			}
+			if _, ok := t.Instrs[len(t.Instrs)-1].(*ssa.Return); !ok {
+				if _, isPanic := t.Instrs[len(t.Instrs)-1].(*ssa.Panic); !isPanic && why == "" {
+					why = "block " + b.String() + " leaves the loop without returning"
+				}
+			}
+		}
+	}
+	goal := "true"
+	if why != "" {
+		goal = "false"
+	}
+	o := fv.emit(nil, "O", fmt.Sprintf("loop%d.%s", li.ordinal, cl.Label), cl.Props, goal, "the loop is left only when its range is exhausted or by a return: "+cl.Text, li.header.Instrs[0].Pos())
+	if why != "" {
+		o.Static = "fails: " + why
+		o.Script = ""
+	}
 }
